@@ -50,6 +50,7 @@ CHECKS = {
     'C34': ('benum', 'Every call (ploidy 0-2, phased/unphased) in the stated allele ranges incl. all power-of-two boundaries up to the representable maximum, and genotype indices to 1e5 (thorough 1e6): Python packing vs the sliced engine Call/Genotype code run on a JVM.', BE + ' Engine side: sliced Scala compiled with Scala 3.3.4.', BET),
     'C37': ('benum', 'All 2x2 tables with cells <=12 (thorough 20) and genotype triples <=15 (30) through the sliced engine statistics code run on a JVM, against exact rational references.', BE + ' Distribution classes (hypergeometric, chi-square) are exact stand-ins, so what is verified is hail\'s own arithmetic.', BET),
     'C38': ('benum', 'Real VariantDatasetCombiner planning/step/save/load over a provenance-tracking data plane for every (GVCF count, VDS multiset, branch factor, batch size) in the bounds x every crash/resume plan; even genome partitioning on synthetic genomes.', BE, BET),
+    'C14': ('benum', 'Every registered route of the real batch front end (read from its RouteTableDef at run time; an unclassified or undriven route is itself reported) x 9 callers (anonymous, unknown token, inactive, owner, other member, browser session, non-member, developer, auth service; thorough 15) x 7 batch targets (own / other project / deleted / other member\'s / inactive user\'s / with an open update / nonexistent) x 4 billing-project targets x 1-4 request variants incl. replayed tokens, dispatched through the real aiohttp router, CSRF and auth decorators and handlers over the SQL interpreter; outsiders must be refused with the whole database, file store and outbound-call log unchanged, insiders must be served, listings may only show readable rows.', DB, BET),
     'C18': ('benum', 'Every pipeline of <=3 bash/python jobs over the resource kinds of the statement and all read wirings through the real DSL and ServiceBackend._async_run with a recording batch client; plumbing read off what was submitted.', BE, BET),
 }
 
